@@ -331,6 +331,51 @@ static int r_step(int c)
 			v_violation(key, "comment '%s' expected '%s'; chunks [%s]", (char *)RCOMM, RWANT.comment, ex_path_str(&r_model));
 			bad = 1;
 		}
+		/* the state after a chunked parse must be as good as the state after a one-call parse: on a COPY of it, (a) the payload is
+		 * inflated in two pieces (1 byte, then the rest: the block header is incomplete in the first call) and (b) the same header is
+		 * parsed once more; return codes, block state, counters and output must equal those of a state that parsed the header in one call */
+		if (!bad) {
+			static struct inflate_state cont[2], ref1;
+			int obs[2][10];
+			for (int which = 0; which < 2; which++) {
+				struct isal_gzip_header gh2;
+				uint8_t ob[32];
+				if (which == 0)
+					memcpy(&cont[0], RST, sizeof cont[0]);
+				else {
+					isal_inflate_init(&cont[1]);
+					isal_gzip_header_init(&gh2);
+					cont[1].next_in = (uint8_t *)RH; cont[1].avail_in = (uint32_t)RHLEN;
+					if (isal_read_gzip_header(&cont[1], &gh2) != ISAL_DECOMP_OK)
+						v_broken("one-call header parse failed on a header the chunked parse accepted");
+				}
+				/* (b) first, on its own copy: a second header right behind the first one */
+				memcpy(&ref1, &cont[which], sizeof ref1);
+				isal_gzip_header_init(&gh2);
+				ref1.next_in = (uint8_t *)RH; ref1.avail_in = (uint32_t)RHLEN;
+				ref1.block_state = ISAL_BLOCK_NEW_HDR;
+				obs[which][7] = isal_read_gzip_header(&ref1, &gh2);
+				obs[which][8] = ref1.avail_in;
+				/* (a) payload: an empty call, one byte, the rest */
+				struct inflate_state *c = &cont[which];
+				memset(ob, 0, sizeof ob);
+				c->next_in = (uint8_t *)RH + RHLEN; c->avail_in = 0; c->next_out = ob; c->avail_out = sizeof ob;
+				obs[which][9] = isal_inflate(c);
+				c->next_in = (uint8_t *)RH + RHLEN; c->avail_in = 1;
+				obs[which][0] = isal_inflate(c);
+				obs[which][1] = c->avail_in;
+				c->next_in = (uint8_t *)RH + RHLEN + 1; c->avail_in = (uint32_t)(RTOTAL - RHLEN - 1);
+				obs[which][2] = isal_inflate(c);
+				obs[which][3] = c->block_state; obs[which][4] = c->avail_in; obs[which][5] = c->total_out; obs[which][6] = ob[0];
+			}
+			if (memcmp(obs[0], obs[1], sizeof obs[0])) {
+				v_violation(key, "continuing on the state left by the chunked parse differs from continuing after a one-call parse: inflate(1 byte) %d/%d left %d/%d, inflate(rest) %d/%d state %d/%d "
+					    "left %d/%d out %d/%d, second header parse %d/%d (left %d/%d), empty call %d/%d; chunks [%s]", obs[0][0], obs[1][0], obs[0][1], obs[1][1], obs[0][2], obs[1][2], obs[0][3], obs[1][3], obs[0][4], obs[1][4],
+					    obs[0][5], obs[1][5], obs[0][7], obs[1][7], obs[0][8], obs[1][8], obs[0][9], obs[1][9], ex_path_str(&r_model));
+				bad = 1;
+			}
+			v_count("continuations_compared", 1);
+		}
 		v_outcome(v_hash(&RCUR, sizeof RCUR, 0));
 		if (!bad)
 			return EX_TERMINAL;
